@@ -625,7 +625,9 @@ func WarmUp(call func() error) error {
 // LagProbe measures how late this process's goroutines are being scheduled while a timing-sensitive
 // scenario runs: a goroutine sleeps 500 µs in a loop and records the largest oversleep.  A scenario whose
 // verdict depends on the library reacting within a fraction of a configured timeout is only conclusive
-// if the environment itself was that responsive.
+// if the environment itself was that responsive.  The environment includes the harness: the probe also
+// reports the longest time a hooked goroutine of the library was held inside the hook runtime (hk.MaxStall),
+// which a goroutine that calls no hook — the sleeping one here, or a timer of the library — does not feel.
 type LagProbe struct {
 	stop chan struct{}
 	done chan struct{}
@@ -634,6 +636,7 @@ type LagProbe struct {
 
 func StartLagProbe() *LagProbe {
 	p := &LagProbe{stop: make(chan struct{}), done: make(chan struct{})}
+	hk.ResetMaxStall()
 	go func() {
 		defer close(p.done)
 		for {
@@ -651,10 +654,13 @@ func StartLagProbe() *LagProbe {
 	return p
 }
 
-// Stop ends the probe and returns the largest scheduling lag seen.
+// Stop ends the probe and returns the largest lag seen: of the scheduler, or of the hook runtime.
 func (p *LagProbe) Stop() time.Duration {
 	close(p.stop)
 	<-p.done
+	if st := hk.MaxStall(); st > p.max {
+		return st
+	}
 	return p.max
 }
 
